@@ -3,6 +3,7 @@
   Theorems are about `Model/Coll.lean`.
 -/
 import SkyllhModel.Model.Coll
+import SkyllhModel.Model.CollR7
 import SkyllhModel.Generated.C20
 import Mathlib.Tactic
 
@@ -2578,3 +2579,549 @@ theorem c20_dataset_add_keeps_prefix :
   exact ⟨rfl, rfl⟩
 
 end datasetthms
+
+/-! ## Round 7: which methods can run on a configuration of a given shape; the shape of the current source -/
+
+namespace C20
+
+theorem odGet_map_snd {K V W : Type} [DecidableEq K] (g : V → W) (l : List (K × V)) (k : K) :
+    odGet (l.map (fun d => (d.1, g d.2))) k = (odGet l k).map g := by
+  induction l with
+  | nil => rfl
+  | cons a t ih =>
+    obtain ⟨k', v'⟩ := a
+    simp only [List.map_cons, odGet]
+    split
+    · rfl
+    · exact ih
+
+theorem navigate_deepCopy (n : Nat) (c : Cfg) (p : List Nat) :
+    navigate (c.deepCopy n) p = (navigate c p).map (fun l => n + Cfg.firstIdx l c.locs) := by
+  simp only [navigate, Cfg.deepCopy, odGet_map_snd (fun l => n + Cfg.firstIdx l c.locs)]
+  cases odGet c.dicts p with
+  | none => simp only [Option.map_none]; split <;> simp [*, Except.map]
+  | some l => rfl
+
+theorem navigate_error (c : Cfg) (p : List Nat) (e : CErr) (h : navigate c p = .error e) :
+    e = .keyError ∨ e = .typeError := by
+  simp only [navigate] at h
+  split at h
+  · cases h
+  · split at h <;> cases h <;> simp
+
+theorem lookup_deepCopy (n : Nat) (c : Cfg) (q : List Nat) : (c.deepCopy n).lookup q = c.lookup q := by
+  simp only [Cfg.lookup, Cfg.deepCopy, odGet_map_snd (fun l => n + Cfg.firstIdx l c.locs)]
+  cases odGet c.leaves q with
+  | some v => rfl
+  | none => cases odGet c.dicts q <;> rfl
+
+theorem writeOk_deepCopy (n : Nat) (c : Cfg) (p : List Nat) : writeOk (c.deepCopy n) p = writeOk c p := by
+  simp only [writeOk, navigate_deepCopy]
+  cases navigate c p <;> rfl
+
+theorem readOk_deepCopy (n : Nat) (c : Cfg) (p : List Nat) (k : Nat) : readOk (c.deepCopy n) p k = readOk c p k := by
+  simp only [readOk, cget, navigate_deepCopy, lookup_deepCopy]
+  cases navigate c p with
+  | error e => rfl
+  | ok l => simp only [Except.map]
+
+/-- the base configuration read from the current source, as a model configuration (leaf `i` has the value code `i`) -/
+def genBase : Cfg := { dicts := Gen.C20.baseDicts, leaves := Gen.C20.baseLeafPaths.zipIdx }
+
+/-- the key codes the methods of the current source use -/
+def genKeys : Keys :=
+  ⟨Gen.C20.kDebugging, Gen.C20.kEnableTracing, Gen.C20.kMultiproc, Gen.C20.kNcpu, Gen.C20.kUnits, Gen.C20.kInternal,
+   Gen.C20.kAngle, Gen.C20.kEnergy, Gen.C20.kLength, Gen.C20.kTime, Gen.C20.kProject, Gen.C20.kWorkingDirectory⟩
+
+end C20
+
+/-- `Config()` can run exactly the methods `_BASECONFIG` can: the deep copy keeps every path -/
+theorem c20_methods_ok_fresh (n : Nat) (c : Cfg) (K : Keys) : methodsOk (c.deepCopy n) K = methodsOk c K := by
+  simp only [methodsOk, C20.writeOk_deepCopy, C20.readOk_deepCopy]
+
+/-- **single-write setters are total on a configuration with the section**: `enable_tracing`,
+`disable_tracing`, `set_enable_tracing(flag)`, `set_ncpu(v)` return normally through configuration `j`
+iff the section they write into is a container of `j` — for any world, other configurations, values. -/
+theorem c20_setter_total (K : Keys) (E : Ext) (w : CWorld) (j : Nat) (c : Cfg) (hj : w.cfgs[j]? = some c)
+    (flag v : Nat) :
+    ((cmethod cstep K E w j .enableTracing).2 = .ok .unit ↔ (methodsOk c K).tracingW = true) ∧
+    ((cmethod cstep K E w j .disableTracing).2 = .ok .unit ↔ (methodsOk c K).tracingW = true) ∧
+    ((cmethod cstep K E w j (.setEnableTracing flag)).2 = .ok .unit ↔ (methodsOk c K).tracingW = true) ∧
+    ((cmethod cstep K E w j (.setNcpu v)).2 = .ok .unit ↔ (methodsOk c K).ncpuW = true) := by
+  have key : ∀ (p : List Nat) (k x : Nat),
+      ((runScript cstep w [some (.set j p k x)]).2 = .ok .unit ↔ writeOk c p = true) := by
+    intro p k x
+    simp only [runScript, cstep, hj, writeOk]
+    cases navigate c p with
+    | error e => simp
+    | ok l => simp
+  exact ⟨key _ _ _, key _ _ _, key _ _ _, key _ _ _⟩
+
+/-- **queries**: `is_tracing_enabled` answers (with the stored value, whatever it is) iff the entry is there;
+`get_wd` / `to_internal_time_unit` reach their external function (`os.path.abspath`, `Unit.to`) iff the entry
+is there — the only `KeyError` of these methods is the one of the navigation. -/
+theorem c20_query_total (K : Keys) (E : Ext) (w : CWorld) (j : Nat) (c : Cfg) (hj : w.cfgs[j]? = some c) (u : Nat) :
+    ((∃ r, (cmethod cstep K E w j .isTracingEnabled).2 = .ok r) ↔ (methodsOk c K).tracingR = true) ∧
+    ((methodsOk c K).wdR = true ↔ ∃ r, cget c [K.project] K.workingDirectory = .ok r ∧
+        (cmethod cstep K E w j .getWd).2 = onVal r E.abspath) ∧
+    ((methodsOk c K).timeR = true ↔ ∃ r, cget c [K.units, K.internal] K.time = .ok r ∧
+        (cmethod cstep K E w j (.toInternalTimeUnit u)).2 = onVal r (E.conv u)) ∧
+    ((methodsOk c K).wdR = false → (cmethod cstep K E w j .getWd).2 = .error .keyError ∨
+        (cmethod cstep K E w j .getWd).2 = .error .typeError) := by
+  refine ⟨?_, ?_, ?_, ?_⟩
+  · simp only [cmethod, hj, methodsOk, readOk]
+    cases cget c [K.debugging] K.enableTracing with
+    | error e => simp
+    | ok r => simp
+  · simp only [cmethod, hj, methodsOk, readOk]
+    cases cget c [K.project] K.workingDirectory with
+    | error e => simp
+    | ok r => simp
+  · simp only [cmethod, hj, methodsOk, readOk]
+    cases cget c [K.units, K.internal] K.time with
+    | error e => simp
+    | ok r => simp
+  · simp only [cmethod, hj, methodsOk, readOk, cget]
+    cases hn : navigate c [K.project] with
+    | error e =>
+      intro _
+      rcases C20.navigate_error c _ e hn with h | h <;> simp [h]
+    | ok l =>
+      cases c.lookup ([K.project] ++ [K.workingDirectory]) with
+      | none => simp
+      | some r => simp
+
+/-- the key chains `self[k1]..[kn]` read from the bodies of the `Config` methods of the current source have the
+form the model's `cmethod` gives them: the three tracing setters and `is_tracing_enabled` use one entry,
+`set_ncpu` its own, `set_internal_units` writes four *different* keys of one section in the order angle, energy,
+length, time, `to_internal_time_unit` reads the key the fourth of them writes, `set_wd` / `get_wd` use one entry
+(three reads, then one write).  A method edited to use another key breaks this proof obligation. -/
+theorem c20_method_keys_for_current_source :
+    Gen.C20.chainsEnableTracing = [(true, [Gen.C20.kDebugging, Gen.C20.kEnableTracing])] ∧
+    Gen.C20.chainsDisableTracing = Gen.C20.chainsEnableTracing ∧
+    Gen.C20.chainsSetEnableTracing = Gen.C20.chainsEnableTracing ∧
+    Gen.C20.chainsIsTracingEnabled = [(false, [Gen.C20.kDebugging, Gen.C20.kEnableTracing])] ∧
+    Gen.C20.chainsSetNcpu = [(true, [Gen.C20.kMultiproc, Gen.C20.kNcpu])] ∧
+    Gen.C20.chainsSetInternalUnits =
+      [Gen.C20.kAngle, Gen.C20.kEnergy, Gen.C20.kLength, Gen.C20.kTime].map
+        (fun k => (true, [Gen.C20.kUnits, Gen.C20.kInternal, k])) ∧
+    [Gen.C20.kAngle, Gen.C20.kEnergy, Gen.C20.kLength, Gen.C20.kTime].Nodup ∧
+    Gen.C20.chainsToInternalTimeUnit = [(false, [Gen.C20.kUnits, Gen.C20.kInternal, Gen.C20.kTime])] ∧
+    Gen.C20.chainsSetWd = (List.replicate 3 (false, [Gen.C20.kProject, Gen.C20.kWorkingDirectory])) ++
+      [(true, [Gen.C20.kProject, Gen.C20.kWorkingDirectory])] ∧
+    Gen.C20.chainsGetWd = [(false, [Gen.C20.kProject, Gen.C20.kWorkingDirectory])] := by
+  decide
+
+/-- the `_BASECONFIG` literal of the current source holds every entry the methods of the current source
+navigate to, it has no container under two paths (`deepcopy` then yields a tree), and its leaves and
+containers are different paths.  A renamed / removed key of the template breaks this proof obligation. -/
+theorem c20_base_paths_for_current_source :
+    methodPathsOk C20.genBase C20.genKeys = true ∧ C20.genBase.locs.Nodup ∧
+    (C20.genBase.dicts.map Prod.fst ++ C20.genBase.leaves.map Prod.fst).Nodup := by
+  decide
+
+/-- so every method of a fresh `Config()` of the current source finds its keys: in any world whose entry 0 is the
+extracted template, the configuration appended by `Config()` passes all six navigation checks … -/
+theorem c20_fresh_config_methods_for_current_source (w : CWorld) (hb : w.cfgs[0]? = some C20.genBase) :
+    ∃ c, (cstep w .new).1.cfgs = w.cfgs ++ [c] ∧ (cstep w .new).2 = .ok .unit ∧
+      methodPathsOk c C20.genKeys = true := by
+  refine ⟨C20.genBase.deepCopy w.next, ?_, ?_, ?_⟩
+  · simp only [cstep, newCfg, hb]
+  · simp only [cstep, newCfg, hb]
+  · simp only [methodPathsOk, c20_methods_ok_fresh]
+    exact c20_base_paths_for_current_source.1
+
+/-- … and `set_internal_units` with all four units, `set_wd`, and the setters run to the end on it
+(instance of the line-by-line model on the extracted template; value codes 90..94 stand for the arguments, the
+external functions are the identity) -/
+theorem c20_fresh_config_calls_for_current_source :
+    let E : Ext := { abspath := fun v => .ok v, conv := fun _ v => .ok v, join := fun a _ => .ok a, vTrue := 1, vFalse := 0 }
+    let w0 : CWorld := { next := 100, cfgs := [C20.genBase] }
+    let w := (cstep w0 .new).1
+    (cmethod cstep C20.genKeys E w 1 (.setInternalUnits (.ok 90) (.ok 91) (.ok 92) (.ok 93))).2 = .ok .unit ∧
+    (cmethod cstep C20.genKeys E w 1 (.setWd (some 94))).2 = .ok (.val 94) ∧
+    (cmethod cstep C20.genKeys E w 1 (.setWd none)).2 = .ok (.val 3) ∧
+    (cmethod cstep C20.genKeys E w 1 (.wdFilename 95)).2 = .ok (.val 3) ∧
+    (cmethod cstep C20.genKeys E w 1 (.toInternalTimeUnit 96)).2 = .ok (.val 9) ∧
+    (cmethod cstep C20.genKeys E w 1 .enableTracing).1.cfgs[0]? = some C20.genBase := by
+  decide
+
+/-! ### writes that allocate a container: `d[k] = {}`, `d.setdefault(k, {})`, `d.setdefault(k, v)` -/
+
+namespace C20
+
+theorem writeNewDictLoc_of_not_mem (l k n : Nat) (c : Cfg) (h : l ∉ c.locs) : c.writeNewDictLoc l k n = c := by
+  unfold Cfg.writeNewDictLoc
+  have : c.dicts.filter (fun d => d.2 = l) = [] := by
+    rw [List.filter_eq_nil_iff]
+    intro d hd hdl
+    apply h
+    exact List.mem_map.mpr ⟨d, hd, by simpa using hdl⟩
+  rw [this]; rfl
+
+/-- the allocating write creates the one new container object and no other -/
+theorem locs_writeNewDictLoc (l k n : Nat) (c : Cfg) : ∀ x ∈ (c.writeNewDictLoc l k n).locs, x ∈ c.locs ∨ x = n := by
+  unfold Cfg.writeNewDictLoc
+  generalize c.dicts.filter (fun d => d.2 = l) = ds
+  suffices H : ∀ (ds : List (List Nat × Nat)) (acc : Cfg), (∀ x ∈ acc.locs, x ∈ c.locs ∨ x = n) →
+      ∀ x ∈ (ds.foldl (fun acc d =>
+        ({ dicts := acc.dicts.filter (fun e => !((d.1 ++ [k]).isPrefixOf e.1)) ++ [(d.1 ++ [k], n)],
+           leaves := acc.leaves.filter (fun x => !((d.1 ++ [k]).isPrefixOf x.1)) } : Cfg)) acc).locs,
+        x ∈ c.locs ∨ x = n from
+    H ds c (fun x hx => Or.inl hx)
+  intro ds
+  induction ds with
+  | nil => intro acc h; exact h
+  | cons d t ih =>
+    intro acc h
+    apply ih
+    intro x hx
+    simp only [Cfg.locs, List.map_append, List.mem_append, List.mem_map, List.map_cons, List.map_nil,
+      List.mem_singleton] at hx
+    rcases hx with ⟨e, he, rfl⟩ | hx
+    · exact h _ (List.mem_map.mpr ⟨e, (List.mem_filter.mp he).1, rfl⟩)
+    · exact Or.inr hx
+
+theorem cinv_new_dict (w : CWorld) (hw : CInv w) (l k : Nat) :
+    CInv { w with next := w.next + 1, cfgs := w.cfgs.map (Cfg.writeNewDictLoc l k w.next) } := by
+  constructor
+  · show (w.cfgs.map _).Pairwise Disj
+    rw [List.pairwise_map]
+    have hall : ∀ a ∈ w.cfgs, ∀ x ∈ a.locs, x < w.next := hw.lt
+    have hp : w.cfgs.Pairwise (fun a b => Disj a b ∧ (∀ x ∈ a.locs, x < w.next) ∧ (∀ x ∈ b.locs, x < w.next)) := by
+      have := hw.disj
+      exact List.Pairwise.imp_of_mem (fun {a b} ha hb hab => ⟨hab, hall a ha, hall b hb⟩) this
+    refine hp.imp ?_
+    rintro a b ⟨hab, hla, hlb⟩ x hxa hxb
+    by_cases ha : l ∈ a.locs
+    · have hb : l ∉ b.locs := hab l ha
+      rw [writeNewDictLoc_of_not_mem l k w.next b hb] at hxb
+      rcases locs_writeNewDictLoc l k w.next a x hxa with h | h
+      · exact hab x h hxb
+      · have := hlb x hxb; omega
+    · rw [writeNewDictLoc_of_not_mem l k w.next a ha] at hxa
+      rcases locs_writeNewDictLoc l k w.next b x hxb with h | h
+      · exact hab x hxa h
+      · have := hla x hxa; omega
+  · intro a ha x hx
+    show x < w.next + 1
+    obtain ⟨a', ha', rfl⟩ := List.mem_map.mp ha
+    rcases locs_writeNewDictLoc l k w.next a' x hx with h | h
+    · have := hw.lt a' ha' x h; omega
+    · omega
+
+end C20
+
+/-- **allocating write**: `cfg[p1]..[pn][k] = {}` through configuration `j` — "every holder of the written
+container gets the new dict" equals "configuration `j` gets it", and the world stays a world without shared
+containers (the new dict is one new object, reachable from `j` only). -/
+theorem c20_new_dict_isolated (w : CWorld) (hw : C20.CInv w) (j : Nat) (path : List Nat) (k : Nat) :
+    csetNewDict w j path k = cspecSetNewDict w j path k ∧ C20.CInv (csetNewDict w j path k).1 := by
+  cases hj : w.cfgs[j]? with
+  | none => simp only [csetNewDict, cspecSetNewDict, hj]; exact ⟨trivial, hw⟩
+  | some c =>
+    cases hn : navigate c path with
+    | error e => simp only [csetNewDict, cspecSetNewDict, hj, hn]; exact ⟨trivial, hw⟩
+    | ok l =>
+      have hl := C20.navigate_mem c path l hn
+      have hm := C20.map_eff_eq_set (Cfg.writeNewDictLoc l k w.next) l (C20.writeNewDictLoc_of_not_mem l k w.next)
+        w.cfgs hw.disj j c hj hl
+      have hc := C20.cinv_new_dict w hw l k
+      simp only [csetNewDict, cspecSetNewDict, hj, hn]
+      refine ⟨by rw [hm], hc⟩
+
+/-- **`setdefault`**: with the key present it is a read (world unchanged, the stored value / container is
+returned); otherwise it is the write.  In both cases every other entry of the world — other Config instances,
+`_BASECONFIG`, user dictionaries — is exactly as before and no container is shared afterwards. -/
+theorem c20_setdefault_local (w : CWorld) (hw : C20.CInv w) (j i : Nat) (path : List Nat) (k v : Nat) (hij : i ≠ j) :
+    (csetNewDict w j path k).1.cfgs[i]? = w.cfgs[i]? ∧
+    (csetDefaultDict w j path k).1.cfgs[i]? = w.cfgs[i]? ∧ C20.CInv (csetDefaultDict w j path k).1 ∧
+    (csetDefaultVal w j path k v).1.cfgs[i]? = w.cfgs[i]? ∧ C20.CInv (csetDefaultVal w j path k v).1 := by
+  have hnd : (csetNewDict w j path k).1.cfgs[i]? = w.cfgs[i]? := by
+    rw [(c20_new_dict_isolated w hw j path k).1]
+    cases hj : w.cfgs[j]? with
+    | none => simp only [cspecSetNewDict, hj]
+    | some c =>
+      cases hn : navigate c path with
+      | error e => simp only [cspecSetNewDict, hj, hn]
+      | ok l => simp only [cspecSetNewDict, hj, hn]; exact List.getElem?_set_ne (fun e => hij e.symm)
+  have hset := c20_config_write_local w hw j i path k v hij
+  have hsetinv := (C20.cstep_isolated w hw (.set j path k v)).2
+  have hndinv := (c20_new_dict_isolated w hw j path k).2
+  refine ⟨hnd, ?_, ?_, ?_, ?_⟩
+  all_goals
+    cases hj : w.cfgs[j]? with
+    | none => simp only [csetDefaultDict, csetDefaultVal, hj] <;> exact hw
+    | some c =>
+      cases hn : navigate c path with
+      | error e => simp only [csetDefaultDict, csetDefaultVal, hj, hn] <;> exact hw
+      | ok l =>
+        cases hk : c.lookup (path ++ [k]) with
+        | some r => simp only [csetDefaultDict, csetDefaultVal, hj, hn, hk] <;> exact hw
+        | none =>
+          simp only [csetDefaultDict, csetDefaultVal, hj, hn, hk]
+          first
+            | (cases hr : csetNewDict w j path k with
+               | mk w' r =>
+                 rw [hr] at hnd hndinv
+                 cases r <;> first | exact hnd | exact hndinv)
+            | (cases hr : cstep w (.set j path k v) with
+               | mk w' r =>
+                 rw [hr] at hset hsetinv
+                 cases r <;> first | exact hset.1 | exact hsetinv)
+
+/-- `setdefault` on a present key changes nothing and returns what is stored -/
+theorem c20_setdefault_present (w : CWorld) (j : Nat) (c : Cfg) (path : List Nat) (k v l : Nat) (r : CRes)
+    (hj : w.cfgs[j]? = some c) (hn : navigate c path = .ok l) (hk : c.lookup (path ++ [k]) = some r) :
+    csetDefaultDict w j path k = (w, .ok r) ∧ csetDefaultVal w j path k v = (w, .ok r) := by
+  simp only [csetDefaultDict, csetDefaultVal, hj, hn, hk, and_self]
+
+/-- non-vacuity: a world with two configurations; `cfgs[1]['a'] = {}` on a missing key, then `setdefault`
+finds it; configuration 0 is untouched -/
+example :
+    let w : CWorld := { next := 4, cfgs := [{ dicts := [([], 0), ([1], 1)], leaves := [([1, 5], 7)] },
+                                             { dicts := [([], 2), ([1], 3)], leaves := [([1, 5], 8)] }] }
+    C20.CInv w ∧ (csetNewDict w 1 [1] 6).2 = .ok .unit ∧
+    (csetDefaultDict (csetNewDict w 1 [1] 6).1 1 [1] 6).2 = .ok .cont ∧
+    (csetDefaultDict w 1 [1] 5).2 = .ok (.val 8) ∧
+    (csetNewDict w 1 [1] 6).1.cfgs[0]? = w.cfgs[0]? ∧ (csetNewDict w 1 [1] 6).1.cfgs[1]? ≠ w.cfgs[1]? := by
+  refine ⟨⟨by decide, by decide⟩, ?_⟩
+  decide
+
+/-! ### `copy()` as a call of its own -/
+
+section copythms
+variable {N : Type} [DecidableEq N] [TyRel]
+
+/-- **`copy()` is pure**: the world gets one more collection — same class and type, the same objects in the same
+order, a list and a name index of its own (new identities), a coherent index — and every existing collection is
+literally unchanged; it is the collection `c + <nothing>` would build. -/
+theorem c20_copy_pure (w : World N) (hw : C20.WInv w) (j : Nat) (a : C N) (ha : w.colls[j]? = some a) :
+    ∃ c : C N, copyStep w j = ({ next := w.next + 2, colls := w.colls ++ [c] }, .ok (.coll w.colls.length)) ∧
+      c.objects = a.objects ∧ c.ty = a.ty ∧ c.oloc = w.next ∧ c.iloc = w.next + 1 ∧
+      c.idx = createIdx c.objects 0 ∧ C20.WInv (copyStep w j).1 ∧
+      (copyStep w j).1 = (applyAct w (.copyExtend j [])).1 := by
+  have hc' : (copyOf w.next a).idx = createIdx (copyOf w.next a).objects 0 := hw.coh j a ha
+  have hw1 : C20.WInv { next := w.next + 2, colls := w.colls ++ [copyOf w.next a] } :=
+    C20.winv_append w hw (copyOf w.next a) (w.next + 2) (le_refl _) (by show w.next ≤ w.next + 1; omega)
+      ⟨by show w.next < w.next + 2; omega, by show w.next + 1 < w.next + 2; omega⟩ hc'
+  obtain ⟨c, hc, hobj, hty, hol, hil, hidx⟩ := c20_copy_extend_pure w hw j a [] ha
+  refine ⟨copyOf w.next a, ?_, rfl, rfl, rfl, rfl, hc', ?_, ?_⟩
+  · simp only [copyStep, copyStepWith, ha]
+  · simp only [copyStep, copyStepWith, ha]; exact hw1
+  · rw [hc]
+    simp only [copyStep, copyStepWith, ha]
+    obtain ⟨o, i, t, ob, ix⟩ := c
+    simp only [List.append_nil] at hobj
+    simp only at hty hol hil hidx
+    subst hobj hty hol hil
+    have := hw.coh j a ha
+    simp only [copyOf, hidx, this]
+
+/-- the invariant behind all accessor theorems (no shared list / index objects, every index = the index rebuilt
+from the list) survives histories that also call `copy()` at any point: the theorems stated for worlds
+satisfying `WInv` (`c20_coherent_accessors`, `c20_index_coherent`, `c20_refines`, `c20_plus_*`) apply to them. -/
+theorem c20_world_invariant_with_copy (ops : List (OpX N)) : ∀ w : World N, C20.WInv w → C20.WInv (runX w ops) := by
+  induction ops with
+  | nil => intro w hw; exact hw
+  | cons o os ih =>
+    intro w hw
+    apply ih
+    cases o with
+    | op o => exact (C20.step_refines w hw o).2.2
+    | copy j =>
+      cases ha : w.colls[j]? with
+      | none => simp only [stepX, copyStep, copyStepWith, ha]; exact hw
+      | some a =>
+        obtain ⟨c, _, _, _, _, _, _, hinv, _⟩ := c20_copy_pure w hw j a ha
+        exact hinv
+
+/-- a copy and its original evolve independently: an `add` to the copy leaves the original (and every other
+collection) as it was, and vice versa — instance of the refinement theorem on the world after `copy()` -/
+theorem c20_copy_then_add_local (w : World N) (hw : C20.WInv w) (j : Nat) (a : C N) (ha : w.colls[j]? = some a)
+    (op : Op N) :
+    let w1 := (copyStep w j).1
+    (step w1 op).2 = (specStep (view w1) op).2 ∧ view (step w1 op).1 = (specStep (view w1) op).1 := by
+  obtain ⟨c, _, _, _, _, _, _, hinv, _⟩ := c20_copy_pure w hw j a ha
+  have h := C20.step_refines (copyStep w j).1 hinv op
+  exact ⟨h.2.1, h.1⟩
+
+end copythms
+
+/-! ### `set_internal_units`: all four writes go through on a tree-shaped configuration -/
+
+namespace C20
+
+theorem odGet_filter_of_key {K V : Type} [DecidableEq K] (f : K × V → Bool) (l : List (K × V)) (k : K)
+    (h : ∀ e ∈ l, e.1 = k → f e = true) : odGet (l.filter f) k = odGet l k := by
+  induction l with
+  | nil => rfl
+  | cons a t ih =>
+    obtain ⟨k', v'⟩ := a
+    have ht : ∀ e ∈ t, e.1 = k → f e = true := fun e he => h e (List.mem_cons_of_mem _ he)
+    by_cases hk : k' = k
+    · have : f (k', v') = true := h _ (List.mem_cons_self) hk
+      subst hk
+      simp only [List.filter_cons, this, if_true, odGet]
+    · by_cases hf : f (k', v') = true
+      · simp only [List.filter_cons, hf, if_true, odGet, hk, if_false]; exact ih ht
+      · simp only [List.filter_cons, hf, odGet, hk, if_false]; exact ih ht
+
+/-- in a configuration that is a tree (no container under two paths) the container reached by `p` is held
+under `p` only -/
+theorem holders_of_nodup (c : Cfg) (hn : c.locs.Nodup) (p : List Nat) (l : Nat) (hg : odGet c.dicts p = some l) :
+    ∀ d ∈ c.dicts, d.2 = l → d = (p, l) := by
+  intro d hd hl
+  have hm := odGet_mem _ _ _ hg
+  have := List.inj_on_of_nodup_map hn hd hm (by simpa using hl)
+  exact this
+
+theorem writeLoc_tree (c : Cfg) (hn : c.locs.Nodup) (p : List Nat) (l k v : Nat) (hg : odGet c.dicts p = some l) :
+    c.writeLoc l k v = c.setLeaf (p ++ [k]) v := by
+  unfold Cfg.writeLoc
+  have hm := odGet_mem _ _ _ hg
+  have hf : c.dicts.filter (fun d => d.2 = l) = [(p, l)] := by
+    have hnd : c.dicts.Nodup := List.Nodup.of_map _ hn
+    have hsub : ∀ d ∈ c.dicts.filter (fun d => d.2 = l), d = (p, l) := by
+      intro d hd
+      have := List.mem_filter.mp hd
+      exact holders_of_nodup c hn p l hg d this.1 (by simpa using this.2)
+    have hnd' : (c.dicts.filter (fun d => d.2 = l)).Nodup := hnd.filter _
+    have hmem : (p, l) ∈ c.dicts.filter (fun d => d.2 = l) := List.mem_filter.mpr ⟨hm, by simp⟩
+    cases hfl : c.dicts.filter (fun d => d.2 = l) with
+    | nil => rw [hfl] at hmem; simp at hmem
+    | cons a t =>
+      rw [hfl] at hsub hnd'
+      have ha : a = (p, l) := hsub a List.mem_cons_self
+      cases t with
+      | nil => rw [ha]
+      | cons b t' =>
+        have hb : b = (p, l) := hsub b (List.mem_cons_of_mem _ List.mem_cons_self)
+        rw [ha, hb] at hnd'
+        simp at hnd'
+  rw [hf]
+  rfl
+
+theorem not_prefix_snoc (p : List Nat) (k : Nat) : (p ++ [k]).isPrefixOf p = false := by
+  cases h : (p ++ [k]).isPrefixOf p with
+  | false => rfl
+  | true =>
+    have := List.isPrefixOf_iff_prefix.mp h
+    have := this.length_le
+    simp at this
+
+/-- an item write into a container of a tree-shaped configuration keeps that container where it is (and the
+configuration a tree): the next write into the same section cannot fail -/
+theorem navigate_writeLoc_tree (c : Cfg) (hn : c.locs.Nodup) (p : List Nat) (l k v : Nat)
+    (hnav : navigate c p = .ok l) :
+    navigate (c.writeLoc l k v) p = .ok l ∧ (c.writeLoc l k v).locs.Nodup := by
+  have hg : odGet c.dicts p = some l := by
+    simp only [navigate] at hnav
+    cases hg : odGet c.dicts p with
+    | none => rw [hg] at hnav; simp only at hnav; split at hnav <;> cases hnav
+    | some l' => rw [hg] at hnav; cases hnav; rfl
+  rw [writeLoc_tree c hn p l k v hg]
+  constructor
+  · simp only [navigate, Cfg.setLeaf]
+    rw [odGet_filter_of_key _ _ _ (by
+      intro e _ he
+      rw [he, not_prefix_snoc]; rfl), hg]
+  · simp only [Cfg.locs, Cfg.setLeaf]
+    exact (List.Nodup.sublist (List.Sublist.map _ List.filter_sublist) hn)
+
+/-- a script of item writes into one section through configuration `j` runs to the end -/
+theorem runScript_sets_total (j : Nat) (p : List Nat) (l : Nat) (kvs : List (Nat × Nat)) : ∀ (w : CWorld) (c : Cfg),
+    w.cfgs[j]? = some c → c.locs.Nodup → navigate c p = .ok l →
+    (runScript cstep w (kvs.map fun kv => some (.set j p kv.1 kv.2))).2 = .ok .unit := by
+  induction kvs with
+  | nil => intro w c _ _ _; rfl
+  | cons kv t ih =>
+    intro w c hj hn hnav
+    simp only [List.map_cons, runScript, cstep, hj, hnav]
+    have h := navigate_writeLoc_tree c hn p l kv.1 kv.2 hnav
+    exact ih _ (c.writeLoc l kv.1 kv.2) (by simp [List.getElem?_map, hj]) h.2 h.1
+
+end C20
+
+/-- **`set_internal_units` is total on a tree-shaped configuration that has the section**: with any subset of
+the four unit arguments given (each a `UnitBase` instance) all writes are performed and the call returns
+normally — in any world, whatever the other entries are.  (`Config()` of the current source is such a
+configuration: `c20_base_paths_for_current_source`.) -/
+theorem c20_set_internal_units_total (K : Keys) (E : Ext) (w : CWorld) (j : Nat) (c : Cfg)
+    (hj : w.cfgs[j]? = some c) (htree : c.locs.Nodup) (hsec : (methodsOk c K).unitsW = true)
+    (a e l t : Option Nat) :
+    let arg : Option Nat → UnitArg := fun x => match x with | none => .absent | some v => .ok v
+    (cmethod cstep K E w j (.setInternalUnits (arg a) (arg e) (arg l) (arg t))).2 = .ok .unit := by
+  intro arg
+  have hnav : ∃ loc, navigate c [K.units, K.internal] = .ok loc := by
+    simp only [methodsOk, writeOk] at hsec
+    cases h : navigate c [K.units, K.internal] with
+    | error x => rw [h] at hsec; cases hsec
+    | ok loc => exact ⟨loc, rfl⟩
+  obtain ⟨loc, hnav⟩ := hnav
+  have key : ∀ kvs : List (Nat × Nat),
+      (runScript cstep w (kvs.map fun kv => some (.set j [K.units, K.internal] kv.1 kv.2))).2 = .ok .unit :=
+    fun kvs => C20.runScript_sets_total j _ loc kvs w c hj htree hnav
+  simp only [cmethod]
+  cases a <;> cases e <;> cases l <;> cases t <;> simp only [arg, unitLine, List.nil_append, List.append_nil,
+    List.cons_append]
+  all_goals first
+    | exact key []
+    | exact key [(_, _)]
+    | exact key [(_, _), (_, _)]
+    | exact key [(_, _), (_, _), (_, _)]
+    | exact key [(_, _), (_, _), (_, _), (_, _)]
+
+/-- non-vacuity: the fresh `Config()` of the current source meets the hypotheses -/
+example : (C20.genBase.deepCopy 100).locs.Nodup ∧
+    (methodsOk (C20.genBase.deepCopy 100) C20.genKeys).unitsW = true := by decide
+
+/-! ### worlds built with `copy()` are reachable worlds too -/
+
+section reachx
+variable {N : Type} [DecidableEq N] [TyRel]
+
+/-- the worlds a program can build when it may also call `copy()`: constructor calls, method calls and copies,
+starting from nothing -/
+inductive C20.ReachableX (hasName : Nat → Bool) : World N → Prop
+  | empty : C20.ReachableX hasName { next := 0, colls := [] }
+  | newColl (w : World N) (ty : Nat) : C20.ReachableX hasName w → C20.ReachableX hasName (newColl w ty)
+  | ctor (w w' : World N) (ty : Option Nat) (arg : CtorArg N) : C20.ReachableX hasName w →
+      mkNamed hasName w ty arg = .ok w' → C20.ReachableX hasName w'
+  | step (w : World N) (op : OpX N) : C20.ReachableX hasName w → C20.ReachableX hasName (stepX w op).1
+
+/-- every world built with constructors, method calls **and `copy()`** satisfies the invariant … -/
+theorem c20_reachable_with_copy_inv (hasName : Nat → Bool) (w : World N) (h : C20.ReachableX hasName w) :
+    C20.WInv w := by
+  induction h with
+  | empty => exact C20.winv_empty
+  | newColl w ty _ ih => exact C20.winv_newColl w ih ty
+  | ctor w w' ty arg _ hm ih => exact (c20_ctor_inv hasName w w' ty arg ih hm).1
+  | step w op _ ih => exact c20_world_invariant_with_copy [op] w ih
+
+/-- … so lookup by name = position holds in it without any hypothesis on the world: a copy made at any point of
+a history, and its original, keep `name_list` = names in positional order and name ↦ position ↦ object. -/
+theorem c20_reachable_with_copy_index_coherent (hasName : Nat → Bool) (w : World N)
+    (h : C20.ReachableX hasName w) (j : Nat) (c : C N) (hj : w.colls[j]? = some c)
+    (hn : (c.objects.map (·.name)).Nodup) :
+    nameList c = c.objects.map (·.name) ∧
+    ∀ i o, c.objects[i]? = some o → getIndexByName c o.name = .ok i ∧ getItem c (.name o.name) = .ok o ∧
+      getItem c (.idx i) = .ok o := by
+  have hc := (c20_reachable_with_copy_inv hasName w h).coh j c hj
+  have ha := (c20_coherent_accessors c hc).2.2 hn
+  refine ⟨ha.1, fun i o hi => ⟨(ha.2 i o hi).1, (ha.2 i o hi).2, ((c20_getitem_idx c).1 i o hi).1⟩⟩
+
+end reachx
+
+section concrete7
+attribute [local instance] C20.flatTypes
+
+/-- non-vacuity: add, `copy()`, add to the copy, pop from the original — reachable, and the two collections differ -/
+example :
+    let w0 : World ℕ := newColl { next := 0, colls := [] } 0
+    let w := runX w0 [.op (.addObj 0 ⟨1, 10, 0⟩), .copy 0, .op (.addObj 1 ⟨2, 20, 0⟩), .op (.pop 0 none)]
+    (w.colls.map (fun c => c.objects.map (·.id))) = [[], [1, 2]] ∧
+    (w.colls.map (fun c => c.idx)) = [[], [(10, 0), (20, 1)]] := by
+  decide
+
+end concrete7
